@@ -327,6 +327,11 @@ func (r *TaskRunner) storeTaskOutput(t *task.Task) {
 }
 
 func (r *TaskRunner) execute(ctx context.Context, t *task.Task, job *executor.Job) error {
+	if job == nil {
+		// a task without commands compiles to no job: nothing to execute
+		return nil
+	}
+
 	exec, err := executor.NewDefaultExecutor(job.Stdin, job.Stdout, job.Stderr)
 	if err != nil {
 		return err
